@@ -87,3 +87,23 @@ class NullTape(Tape):
 
     def draw(self, n: int, label: str = "") -> int:
         return 0
+
+
+class PolicyTape(Tape):
+    """Answers only the event loop's scheduling questions, by a fixed policy instead of a seeded draw: used by directed sweeps that want
+    'every pair of same-instant events in ONE loop iteration, in this order' without relying on a random tape finding it."""
+
+    def __init__(self, batch: int = 1, join: int = 1, order: int = 0):
+        super().__init__(values=[])
+        self.batch, self.join, self.order = batch, join, order
+
+    def draw(self, n: int, label: str = "") -> int:
+        if n <= 1:
+            return 0
+        if label == "sched.batch":
+            return min(self.batch, n - 1)
+        if label == "sched.join":
+            return min(self.join, n - 1)
+        if label == "sched.order":
+            return min(self.order, n - 1)
+        return 0
